@@ -15,9 +15,23 @@ import glob, json
 ms = []
 for p in sorted(glob.glob('props/C*.json')):
     c = json.load(open(p))
-    ms += c.get('theorem_modules', []) + c.get('gen_modules', [])
+    ms += c.get('theorem_modules', [])
+print(' '.join(dict.fromkeys(ms)))
+PY
+)
+gens=$(python3 - <<'PY'
+import glob, json
+ms = []
+for p in sorted(glob.glob('props/C*.json')):
+    c = json.load(open(p))
+    ms += c.get('gen_modules', [])
 print(' '.join(dict.fromkeys(ms)))
 PY
 )
 (cd lean && lake build slipmodel $mods)
+# generated obligations are facts about the repository as it is now: a failure here is a verdict of
+# ./check (K-gen broken), not a setup failure
+for g in $gens; do
+  (cd lean && lake build $g) || echo "setup: generated obligation $g does not build on this tree (./check will report it)"
+done
 echo "setup ok"
